@@ -2,11 +2,12 @@
 from __future__ import annotations
 
 import ast
+import os
 
 import z3
 
 from . import smt
-from .contract import (Arr, Arr2, Bool, Chunks, Const, Contract, Int, Obj, Opaque, Opt, Raw, Real, RecArr, Str, Tup)
+from .contract import (Arr, Arr2, Bool, Chunks, Const, Contract, Int, Obj, Opaque, Opt, Raw, Real, RecArr, SeqOf, Str, Tup, Callback)
 from .source import ContractMismatch, OutOfSubset, _strip_doc
 from .state import NORMAL, Outcome, State
 from .values import *  # noqa: F403
@@ -84,11 +85,21 @@ class CallMixin:
                     st.env[v.id] = saved
             new = st.pc[n0:]
             del st.pc[n0:]
+            # definitional facts that do not mention the bound variable (division witnesses of outer terms, the
+            # fdiv/fmod axiom) hold outside the binder as well: keep them unquantified
+            free = [f for f in new if not smt.mentions(f, c)] if not os.environ.get('PVC_NO_HOIST') else []
+            new = [f for f in new if smt.mentions(f, c)]
+            for f in free:
+                if not any(f is q or f.eq(q) for q in st.pc[-40:]):
+                    st.pc.append(f)
             rng = z3.And(lo <= c, c < hi)
             if name == "forall":
                 if new:
-                    # facts that mention the bound variable (unfoldings) are quantified alongside
-                    st.pc.append(z3.ForAll([c], z3.Implies(rng, z3.And(new))))
+                    # facts that mention the bound variable (unfoldings) are quantified alongside; they are marked
+                    # auxiliary: the portfolio first tries without them (a proof from fewer premises is a proof)
+                    aux = z3.ForAll([c], z3.Implies(rng, z3.And(new)))
+                    smt.AUX[aux.get_id()] = aux
+                    st.pc.append(aux)
                 return VBool(z3.ForAll([c], z3.Implies(rng, body)))
             return VBool(z3.Exists([c], z3.And(rng, *(new + [body]))))
         if name == "implies":
@@ -256,6 +267,8 @@ class CallMixin:
             return VInt(len(v.s)) if v.s is not None else VInt(z3.Length(v.t))
         if isinstance(v, VOpaqueBuf):
             return VInt(v.n)
+        if type(v).__name__ == "VBytes":
+            return VInt(z3.Length(v.t))
         if type(v).__name__ == "VArrDec":
             return VInt(v.n)
         if isinstance(v, VObj) and v.cls == "ChunkList":
@@ -318,13 +331,26 @@ class CallMixin:
             if fn.self_ is not None:
                 args = [fn.self_] + list(args)
             return self.models[fn.ref](self, st, args, kwargs, line)
+        if k == "callback":
+            name, kind, dtype = fn.ref
+            a = args[0] if args else None
+            if not isinstance(a, VArr):
+                raise OutOfSubset(f"line {line}: callback argument {a!r}")
+            self.assume_tag("A-CALLBACK: user callable is a deterministic, side-effect free, shape-preserving function")
+            from .values import ELEM_SORT
+            cb = z3.Function("cb_" + name, st.heap[a.obj].sort(), INT, ELEM_SORT[kind])
+            j = z3.Int("j!cb")
+            obj = self.new_obj(st, kind, dtype, "cbret", contents=z3.Lambda([j], cb(st.heap[a.obj], j)))
+            if smt.conc_int(a.off) != 0 or smt.conc_int(a.stride) != 1:
+                raise OutOfSubset(f"line {line}: callback on a view")
+            return [(st, Outcome("value", VArr(obj, z3.IntVal(0), z3.IntVal(1), a.n)))]
         if k == "repo":
             return self.call_repo(fn.ref, None, args, kwargs, st, line)
         if k == "method":
             return self.call_repo(fn.ref, fn.self_, args, kwargs, st, line)
         if k == "class":
             return self.call_class(fn.ref, args, kwargs, st, line)
-        if k in ("arrmethod", "dictmethod", "listmethod", "strmethod", "opaque", "seqmethod", "scalarmethod"):
+        if k in ("arrmethod", "dictmethod", "listmethod", "strmethod", "opaque", "seqmethod", "scalarmethod", "bytesmethod"):
             m = self.models.get(f"{k}.{fn.ref}")
             if m is None:
                 raise OutOfSubset(f"line {line}: {k} .{fn.ref}()")
@@ -416,6 +442,8 @@ class CallMixin:
             if isinstance(v, VInt):
                 return val(v)
             raise OutOfSubset(f"line {line}: round with digits")
+        if name == "callable":
+            return val(VBool(isinstance(args[0], VFunc)))
         if name == "isinstance":
             return val(self.isinstance_v(args[0], node.args[1] if node is not None else None, st, line))
         if name == "sum":
@@ -494,6 +522,8 @@ class CallMixin:
         elif isinstance(tnode, ast.Tuple):
             names = [n.id for n in tnode.elts if isinstance(n, ast.Name)]
         res = False
+        if isinstance(tnode, ast.Attribute) and tnode.attr == "ndarray" and isinstance(v, (VArr, VArr2)):
+            res = True
         for n in names:
             if n == "str" and isinstance(v, VStr):
                 res = True
@@ -810,6 +840,27 @@ class CallMixin:
                 return v
         if isinstance(t, Opaque):
             return VOpaque(name)
+        if type(t).__name__ == "Bytes":
+            from .bytesmodel import VBytes
+            return VBytes(smt.fresh(name, z3.StringSort()))
+        if isinstance(t, Callback):
+            return VFunc("callback", (name, t.kind, t.dtype))
+        if isinstance(t, SeqOf):
+            n = smt.fresh(name + "_len")
+            st.assume(n >= 0)
+
+            def leaf(tt, nm):
+                if isinstance(tt, Real):
+                    f = z3.Function(nm, INT, REAL)
+                    return lambda i: VReal(f(smt.som(i)))
+                if isinstance(tt, Int):
+                    f = z3.Function(nm, INT, INT)
+                    return lambda i: VInt(f(smt.som(i)))
+                if isinstance(tt, Tup):
+                    fs = [leaf(x, f"{nm}.{k}") for k, x in enumerate(tt.items)]
+                    return lambda i: VTuple([g(i) for g in fs])
+                raise OutOfSubset(f"sequence item type {tt!r}")
+            return VSeq(n, leaf(t.item, name + "@item"))
         if isinstance(t, Tup):
             return VTuple([self.mk_param(f"{name}.{i}", it, st) for i, it in enumerate(t.items)])
         if isinstance(t, Opt):
